@@ -542,6 +542,7 @@ def compose_slices(text):
     except SyntaxError:
         return text
     try:
+        e = ast.parse(canon_sums(text), mode="eval").body      # .match(s).end() -> len(.. .group(0)) first: a length, hence not negative
         e = ast.fix_missing_locations(_SliceCompose().visit(e))
         return canon_sums(ast.unparse(e))
     except Exception:
